@@ -220,8 +220,8 @@ func c04Scenarios(tier string) []*core.Scenario {
 	scs = append(scs, mk("all_mnemonics_all_gaps", c04All, gaps, rule))
 	scs = append(scs, mk("far_gaps", []string{"JMP", "JE", "CALL", "JNLE"}, farGaps, rule))
 	// far jumps
-	segs := []int64{0, 1, 8, 0x10, 0xffff}
-	offs := []int64{0, 1, 0x1b, 0x7f, 0x80, 0xff, 0x100, 0x7fff, 0x8000, 0xffff, 0x10000, 0x7fffffff, 0x80000000, 0xffffffff}
+	segs := []int64{0, 1, 8, 0x10, 0xffff, 0x10000, 0x10008}
+	offs := []int64{0, 1, 0x1b, 0x7f, 0x80, 0xff, 0x100, 0x7fff, 0x8000, 0xffff, 0x10000, 0x7fffffff, 0x80000000, 0xffffffff, 0x100000000, 0x100000010}
 	scs = append(scs, &core.Scenario{Name: "far_jmp", Bound: -1,
 		Rule:   "JMP DWORD seg:off for boundary selector and offset values x BITS: decoded far pointer fields must equal the source's",
 		Bounds: map[string]any{"selectors": segs, "offsets": offs},
@@ -250,6 +250,10 @@ func c04Scenarios(tier string) []*core.Scenario {
 					v.NTKey = fmt.Sprintf("%d|%x", mode, r.Out)
 					if len(r.Out) == 0 {
 						v.Fails = []core.Fail{{Facet: "dropped_silently", Dev: "no_bytes"}}
+						return v
+					}
+					if sg > 0xffff || of > 0xffffffff {
+						v.Fails = []core.Fail{{Facet: "far_pointer", Dev: "out_of_range_silently_truncated", Detail: fmt.Sprintf("%s does not fit ptr16:32 but assembled without any diagnostic to % X", stmt, r.Out)}}
 						return v
 					}
 					in, err := x86ref.Decode(r.Out, mode)
